@@ -22,6 +22,14 @@ def main(argv):
         return mod.replay(replay)
     lean = common.lean_side(pid, tier)
     res = mod.run(seed=seed, tier=tier, lean=lean)
+    # listed known findings: replay each witness on the real code on every run
+    for k in common.load_known().get('findings', []):
+        if k.get('property') == pid and 'witness' in k and hasattr(mod, 'check_witness'):
+            fp = mod.check_witness(k['witness'])
+            if fp == k['fingerprint']:
+                res.violations.append(common.Violation(what=k['what'], fingerprint=fp, replay=k['witness']))
+            else:
+                res.notes.append(f'known finding {k.get("id")} no longer reproduces on its witness (got {fp})')
     return common.finish(pid, tier, seed, lean, res, mod.ASSUMPTIONS, mod.TRUSTED, t0,
                          getattr(mod, 'PARTIAL', ''))
 
